@@ -1,7 +1,8 @@
 import MalVerif.Py.TieEval
+import MalVerif.Py.TieLink
 import MalVerif.Props.C01
 /-!
-# C01 for the *translated* Python — the step-expression evaluator
+# C01 for the *translated* Python — the step-expression evaluator and the linking loop of `_generate_graph`
 
 `_process_step_expression` of `MalVerif/Py/Gen/Eval.lean` is generated from `maltoolbox/attackgraph/attackgraph.py`.
 `eval_tie` (`MalVerif/Py/TieEval.lean`) says: whenever the hand model `evalF` evaluates successfully, the generated
@@ -11,6 +12,10 @@ large recursion budget `fuel` (the Python has none: `fuel` is Python's recursion
 
 The generated function runs in the environment `envOf L m` (`MalVerif/Py/AbsEval.lean`): the methods it calls on
 the language graph and on the model are the hand-written models of those methods.
+
+Second part (`link_children_iff`, `link_children_iff_general`, `link_parents_converse`, `link_edge_ends`): the edge
+clauses of C01 for the translated second loop of `AttackGraph._generate_graph` (`MalVerif/Py/Gen/Link.lean`), from
+`link_tie` (`MalVerif/Py/TieLink.lean`).
 -/
 namespace MalVerif.PropsGen.C01
 open MalVerif MalVerif.Py MalVerif.Py.Gen MalVerif.Py.Tie
@@ -153,5 +158,190 @@ example : ∃ N, ∀ fuel, N ≤ fuel → ∃ objs nm,
   eval_mem_iff demoL demoM 1 _ [1] ([2, 1], none) demo_transOK demo_eval
 
 example : LinksClosed demoM := by decide
+
+/-! ## C01 for the *translated* linking loop (second loop of `AttackGraph._generate_graph`)
+
+`graph__generate_graph_link` of `MalVerif/Py/Gen/Link.lean` is generated from the loop `for ag_node in self.nodes:` of
+`_generate_graph`.  `link_tie` (`MalVerif/Py/TieLink.lean`) says: started in a heap that `Represents` the node list
+`ns` of the hand model (the state after the first loop), and when the hand model's `genEdges` returns `es`, the
+translated loop returns — for every sufficiently large recursion budget of the evaluator — the heap whose
+`children` / `parents` lists are read off `es`.  The edge clauses of `MalVerif/Props/C01.lean` are restated here
+for that heap.  (All three theorems speak about the same `s'`: the value of `graph__generate_graph_link`.) -/
+
+/-- **Children = specification.**  `b` is among the children of the object `a` iff `EdgeSpec`: some `reaches`
+expression of node `a`, under the set semantics from `a`'s asset, reaches an asset `Y` and ends in a step `t` such
+that `b` is the node registered under the name `Y:t`.  Hypotheses as in `C01.edges_iff_EdgeSpec`. -/
+theorem link_children_iff (L : Lang) (m : Inst) (ns : List GNode) (es : List (Nat × Nat)) (s : H)
+    (hrep : Represents L m ns s)
+    (htr : ∀ n ∈ ns, ∀ e ∈ n.reaches, TransOK L m L.varFuel e)
+    (htail : ∀ n ∈ ns, ∀ e ∈ n.reaches, tailVar e = false)
+    (h : genEdges L m ns = .ok es) :
+    ∃ F, ∀ fuel, F ≤ fuel → ∃ s', graph__generate_graph_link s (envOf L m fuel) = .ok s' ∧
+      ∀ a b, b ∈ (s'.n a).children ↔ EdgeSpec L m ns a b := by
+  obtain ⟨F, hF⟩ := link_tie L m ns es s hrep h
+  refine ⟨F, fun fuel hf => ?_⟩
+  obtain ⟨s', hrun, hch, _⟩ := hF fuel hf
+  refine ⟨s', hrun, fun a b => ?_⟩
+  rw [hch a, ← MalVerif.C01.edges_iff_EdgeSpec L m ns es htr htail h a b]
+  exact MalVerif.C01.mem_childrenOf es a b
+
+/-- the same without the restriction on the last component of the `reaches` expressions
+(`C01.edges_iff_EdgeSpecG`: the step name is the one of the set semantics) -/
+theorem link_children_iff_general (L : Lang) (m : Inst) (ns : List GNode) (es : List (Nat × Nat)) (s : H)
+    (hrep : Represents L m ns s)
+    (htr : ∀ n ∈ ns, ∀ e ∈ n.reaches, TransOK L m L.varFuel e)
+    (h : genEdges L m ns = .ok es) :
+    ∃ F, ∀ fuel, F ≤ fuel → ∃ s', graph__generate_graph_link s (envOf L m fuel) = .ok s' ∧
+      ∀ a b, b ∈ (s'.n a).children ↔ EdgeSpecG L m ns a b := by
+  obtain ⟨F, hF⟩ := link_tie L m ns es s hrep h
+  refine ⟨F, fun fuel hf => ?_⟩
+  obtain ⟨s', hrun, hch, _⟩ := hF fuel hf
+  refine ⟨s', hrun, fun a b => ?_⟩
+  rw [hch a, ← MalVerif.C01.edges_iff_EdgeSpecG L m ns es htr h a b]
+  exact MalVerif.C01.mem_childrenOf es a b
+
+theorem count_childrenOf (es : List (Nat × Nat)) (a b : Nat) : (childrenOf es a).count b = es.count (a, b) := by
+  induction es with
+  | nil => rfl
+  | cons e es ih =>
+    obtain ⟨x, y⟩ := e
+    unfold childrenOf at ih ⊢
+    rw [List.filter_cons, List.count_cons]
+    by_cases hx : x = a
+    · subst hx
+      simp only [decide_true, if_true, List.map_cons, List.count_cons, ih]
+      by_cases hy : y = b <;> simp [hy]
+    · have : ((x, y) == (a, b)) = false := by simp [hx]
+      simp only [hx, decide_false, Bool.false_eq_true, if_false, ih, this, Nat.add_zero]
+
+theorem count_parentsOf (es : List (Nat × Nat)) (a b : Nat) : (parentsOf es b).count a = es.count (a, b) := by
+  induction es with
+  | nil => rfl
+  | cons e es ih =>
+    obtain ⟨x, y⟩ := e
+    unfold parentsOf at ih ⊢
+    rw [List.filter_cons, List.count_cons]
+    by_cases hy : y = b
+    · subst hy
+      simp only [decide_true, if_true, List.map_cons, List.count_cons, ih]
+      by_cases hx : x = a <;> simp [hx]
+    · have : ((x, y) == (a, b)) = false := by simp [hy]
+      simp only [hy, decide_false, Bool.false_eq_true, if_false, ih, this, Nat.add_zero]
+
+/-- **Parents are the converse of children**, with equal multiplicities: the object `a` occurs in the `parents`
+list of `b` exactly as often as `b` occurs in the `children` list of `a` (both are the number of occurrences of the
+edge `(a, b)` in the hand model's edge list). -/
+theorem link_parents_converse (L : Lang) (m : Inst) (ns : List GNode) (es : List (Nat × Nat)) (s : H)
+    (hrep : Represents L m ns s) (h : genEdges L m ns = .ok es) :
+    ∃ F, ∀ fuel, F ≤ fuel → ∃ s', graph__generate_graph_link s (envOf L m fuel) = .ok s' ∧
+      ∀ a b, (a ∈ (s'.n b).parents ↔ b ∈ (s'.n a).children) ∧
+        (s'.n b).parents.count a = (s'.n a).children.count b ∧ (s'.n a).children.count b = es.count (a, b) := by
+  obtain ⟨F, hF⟩ := link_tie L m ns es s hrep h
+  refine ⟨F, fun fuel hf => ?_⟩
+  obtain ⟨s', hrun, hch, hpa, _⟩ := hF fuel hf
+  refine ⟨s', hrun, fun a b => ?_⟩
+  rw [hch a, hpa b]
+  exact ⟨MalVerif.C01.parents_converse es a b, (count_parentsOf es a b).trans (count_childrenOf es a b).symm,
+    count_childrenOf es a b⟩
+
+/-- **Edges connect nodes of the graph**: the `children` and `parents` lists only hold references of `s'.nodes`,
+and only objects of `s'.nodes` have children or parents; the node list itself is the one the loop started with. -/
+theorem link_edge_ends (L : Lang) (m : Inst) (ns : List GNode) (es : List (Nat × Nat)) (s : H)
+    (hrep : Represents L m ns s) (h : genEdges L m ns = .ok es) :
+    ∃ F, ∀ fuel, F ≤ fuel → ∃ s', graph__generate_graph_link s (envOf L m fuel) = .ok s' ∧
+      s'.nodes = s.nodes ∧
+      (∀ a b, b ∈ (s'.n a).children → a ∈ s'.nodes ∧ b ∈ s'.nodes) ∧
+      (∀ a b, a ∈ (s'.n b).parents → a ∈ s'.nodes ∧ b ∈ s'.nodes) := by
+  obtain ⟨F, hF⟩ := link_tie L m ns es s hrep h
+  refine ⟨F, fun fuel hf => ?_⟩
+  obtain ⟨s', hrun, hch, hpa, _, _, hnodes, _⟩ := hF fuel hf
+  have key : ∀ a b, (a, b) ∈ es → a ∈ s'.nodes ∧ b ∈ s'.nodes := by
+    intro a b hab
+    obtain ⟨⟨n, hn, ha⟩, ⟨t, ht, hb⟩⟩ := MalVerif.C01.edge_ends L m ns es h a b hab
+    rw [hnodes, hrep.nodes]
+    exact ⟨List.mem_map.2 ⟨n, hn, ha⟩, List.mem_map.2 ⟨t, ht, hb⟩⟩
+  refine ⟨s', hrun, hnodes, fun a b hb => ?_, fun a b ha => ?_⟩
+  · rw [hch a] at hb
+    exact key a b ((MalVerif.C01.mem_childrenOf es a b).1 hb)
+  · rw [hpa b] at ha
+    exact key a b ((MalVerif.C01.mem_childrenOf es a b).1 ((MalVerif.C01.parents_converse es a b).1 ha))
+
+/-! ### non-vacuity of the linking theorems: `demoL` with two attack steps, over `demoM` -/
+
+/-- `(next)*.compromise` -/
+def demoE : Expr := .collect (.trans (.field "next")) (.step "compromise")
+
+/-- `demoL` with the attack steps `access -> (next)*.compromise` and `compromise` on `A` (inherited by `B`) -/
+def demoLS : Lang :=
+  { demoL with
+    assets := [{ name := "A",
+                 steps := [{ name := "access", type := "or", reaches := some { overrides := true, exprs := [demoE] } },
+                           { name := "compromise", type := "and" }] },
+               { name := "B", superAsset := some "A" }] }
+
+/-- the node list the hand model's first loop generates: `a:access`, `a:compromise`, `b:access`, `b:compromise` -/
+def demoNs : List GNode := match genNodes demoLS demoM with | .ok ns => ns | .error _ => []
+
+theorem demoNs_gen : genNodes demoLS demoM = .ok demoNs := by
+  unfold demoNs
+  cases h : genNodes demoLS demoM with
+  | ok ns => rfl
+  | error e =>
+    have : (genNodes demoLS demoM).map (·.length) = .ok 4 := by decide
+    rw [h] at this; cases this
+
+theorem demoNs_ids : demoNs.map (·.id) = [0, 1, 2, 3] := by decide
+
+theorem demoNs_reaches : ∀ n ∈ demoNs, ∀ e ∈ n.reaches, e = demoE := by
+  have h : demoNs.all (fun n => n.reaches.all (· = demoE)) = true := by decide
+  intro n hn e he
+  simpa using List.all_eq_true.1 (List.all_eq_true.1 h n hn) e he
+
+theorem demoNs_edges : genEdges demoLS demoM demoNs = .ok [(0, 3), (0, 1), (2, 1), (2, 3)] := by decide
+
+/-- the heap after the first loop `Represents` the node list -/
+theorem demo_represents : Represents demoLS demoM demoNs (heapOf demoM demoNs) :=
+  represents_heapOf demoLS demoM demoNs (by rw [demoNs_ids]; decide)
+
+/-- the translated loop, run by the kernel on that heap with fuel 3: `(reference, children, parents)` of every node -/
+example :
+    (graph__generate_graph_link (heapOf demoM demoNs) (envOf demoLS demoM 3)).map
+      (fun s' => s'.nodes.map (fun r => (r, (s'.n r).children, (s'.n r).parents))) =
+    .ok [(0, [3, 1], []), (1, [], [0, 2]), (2, [1, 3], []), (3, [], [0, 2])] := by decide
+
+/-- with fuel 2 the evaluator's recursion budget is exhausted -/
+example :
+    (graph__generate_graph_link (heapOf demoM demoNs) (envOf demoLS demoM 2)).map (fun s' => s'.nodes) =
+    .error .recursionError := by decide
+
+theorem demoE_transOK : TransOK demoLS demoM demoLS.varFuel demoE := by
+  show TransOK demoLS demoM 1 demoE
+  exact MalVerif.C01.transOK_of_starOK demoLS demoM 1 demoE ⟨⟨trivial, trivial⟩, trivial⟩
+
+/-- so `link_children_iff` applies to the demo: for all large fuel the `children` lists are the relation `EdgeSpec` -/
+example : ∃ F, ∀ fuel, F ≤ fuel → ∃ s',
+    graph__generate_graph_link (heapOf demoM demoNs) (envOf demoLS demoM fuel) = .ok s' ∧
+    ∀ a b, b ∈ (s'.n a).children ↔ EdgeSpec demoLS demoM demoNs a b :=
+  link_children_iff demoLS demoM demoNs _ _ demo_represents
+    (fun n hn e he => by rw [demoNs_reaches n hn e he]; exact demoE_transOK)
+    (fun n hn e he => by rw [demoNs_reaches n hn e he]; rfl) demoNs_edges
+
+/-- … and `link_parents_converse`, `link_edge_ends`: e.g. `a:access` (0) is exactly once a parent of `b:compromise` (3) -/
+example : ∃ F, ∀ fuel, F ≤ fuel → ∃ s',
+    graph__generate_graph_link (heapOf demoM demoNs) (envOf demoLS demoM fuel) = .ok s' ∧
+    (s'.n 3).parents.count 0 = 1 ∧ (s'.n 0).children.count 3 = 1 := by
+  obtain ⟨F, hF⟩ := link_parents_converse demoLS demoM demoNs _ _ demo_represents demoNs_edges
+  refine ⟨F, fun fuel hf => ?_⟩
+  obtain ⟨s', hrun, h⟩ := hF fuel hf
+  obtain ⟨_, h1, h2⟩ := h 0 3
+  exact ⟨s', hrun, by rw [h1, h2]; decide, by rw [h2]; decide⟩
+
+example : ∃ F, ∀ fuel, F ≤ fuel → ∃ s',
+    graph__generate_graph_link (heapOf demoM demoNs) (envOf demoLS demoM fuel) = .ok s' ∧
+    s'.nodes = [0, 1, 2, 3] ∧ (∀ a b, b ∈ (s'.n a).children → a ∈ s'.nodes ∧ b ∈ s'.nodes) := by
+  obtain ⟨F, hF⟩ := link_edge_ends demoLS demoM demoNs _ _ demo_represents demoNs_edges
+  refine ⟨F, fun fuel hf => ?_⟩
+  obtain ⟨s', hrun, hn, hc, _⟩ := hF fuel hf
+  exact ⟨s', hrun, by rw [hn]; exact demoNs_ids, hc⟩
 
 end MalVerif.PropsGen.C01
